@@ -11,6 +11,7 @@ import (
 	"github.com/elastic/go-txfile/txerr"
 
 	"verif/harness"
+	"verif/simdisk"
 )
 
 // LockSeq is a generated sequence of open/close steps on one path.
@@ -53,7 +54,8 @@ func init() {
 			"FlagWaitLock in a goroutine, write transaction, close, failing opens (invalid options, invalid max-size update, both headers damaged, headers zeroed, " +
 			"file shorter than a header) and reopen; oracle: while a File is open a second Open fails with kind LockFailed and leaves the first usable; a waiting " +
 			"Open has not returned before the first Close and returns successfully after it; after Close and after every failed Open the next Open succeeds at " +
-			"once and sees the last committed contents; non-trivial = sequence with >=1 rejected second open, >=1 failed open followed by a successful one, and " +
+			"once and sees the last committed contents; additionally, on the simulated disk, creation and Open with each of their I/O calls failing once must " +
+			"return an error and release the lock, and a second Open while open must fail with LockFailed; non-trivial = sequence with >=1 rejected second open, >=1 failed open followed by a successful one, and " +
 			">=1 waiting open; distinct = distinct sequence hash",
 		Assume: []string{
 			"runs on the OS file system with flock (the only property not checked on the simulated disk); I/O failure during initialisation is covered on the simulated disk by the lock-flag checks of C08/C16",
@@ -327,6 +329,85 @@ func RunC18(p *LockSeq) Result {
 	if r := closeGood(); r != nil {
 		return *r
 	}
+	// injected I/O failure during initialisation (simulated disk: the lock flag of the
+	// disk plays the role of the path lock)
+	if v := simOpenFaults(p, c); v != nil {
+		return Result{V: v, Counters: c}
+	}
 	nt := c["second-open-rejected"] > 0 && c["open-after-failed-open"] > 0 && c["waiting-open"] > 0
 	return Result{Counters: c, Nontrivial: nt}
+}
+
+// simOpenFaults: Open of a new and of an existing file with each of its I/O
+// calls failing once must return an error and release the lock; a second Open
+// while the file is open must fail with a lock error.
+func simOpenFaults(p *LockSeq, c map[string]int) (v *harness.Violation) {
+	defer func() {
+		if x := recover(); x != nil {
+			v = &harness.Violation{Clause: "open-fault-panic", Item: -1, Msg: fmt.Sprintf("Open paniced under an injected I/O failure: %v", x)}
+		}
+	}()
+	opts := txfile.Options{PageSize: p.PageSize, MaxSize: uint64(p.MaxPages) * uint64(p.PageSize)}
+	// creation with failing write / sync
+	for _, k := range []simdisk.CallKind{simdisk.CallWrite, simdisk.CallSync, simdisk.CallSize, simdisk.CallMMap} {
+		d := simdisk.New("c18-create")
+		d.Arm(&simdisk.Fault{Kind: k, Ordinal: 0, Burst: 1})
+		f, err := txfile.VerifOpen(d, opts)
+		c["sim-failed-open"]++
+		if err == nil {
+			f.Close()
+			return &harness.Violation{Clause: "open-accepted", Item: -1, Msg: fmt.Sprintf("creating a file with the first %s call failing succeeded", k)}
+		}
+		if d.Locked() {
+			return &harness.Violation{Clause: "open-fault-lock", Item: -1, Msg: fmt.Sprintf("failed creation (%s call failing) left the file locked", k)}
+		}
+	}
+	// existing file
+	d := simdisk.New("c18-existing")
+	f, err := txfile.VerifOpen(d, opts)
+	if err != nil {
+		return &harness.Violation{Clause: "open-after-release", Item: -1, Msg: fmt.Sprintf("creating the file failed: %v", err)}
+	}
+	if _, err := txfile.VerifOpen(d, opts); err == nil || !txerr.Is(txfile.LockFailed, err) {
+		return &harness.Violation{Clause: "lock-not-exclusive", Item: -1, Msg: fmt.Sprintf("second Open on the simulated disk: err=%v, expected LockFailed", err)}
+	}
+	tx, err := f.Begin()
+	if err == nil {
+		if pg, e := tx.Alloc(); e == nil {
+			pg.SetBytes(make([]byte, p.PageSize))
+		}
+		err = tx.Commit()
+	}
+	if err != nil {
+		return &harness.Violation{Clause: "tx", Item: -1, Msg: fmt.Sprintf("transaction failed: %v", err)}
+	}
+	f.Close()
+	d.Arm(nil)
+	f, err = txfile.VerifOpen(d, txfile.Options{})
+	if err != nil {
+		return &harness.Violation{Clause: "open-after-release", Item: -1, Msg: fmt.Sprintf("reopen failed: %v", err)}
+	}
+	counts := d.Counts()
+	f.Close()
+	for _, k := range []simdisk.CallKind{simdisk.CallSize, simdisk.CallRead, simdisk.CallMMap} {
+		for ord := 0; ord < counts[k]; ord++ {
+			d.Arm(&simdisk.Fault{Kind: k, Ordinal: ord, Burst: 1})
+			f, err := txfile.VerifOpen(d, txfile.Options{})
+			c["sim-failed-open"]++
+			if err == nil {
+				f.Close()
+				continue
+			}
+			if d.Locked() {
+				return &harness.Violation{Clause: "open-fault-lock", Item: -1, Msg: fmt.Sprintf("failed Open (%s call #%d failing) left the file locked", k, ord)}
+			}
+			d.Arm(nil)
+			f, err = txfile.VerifOpen(d, txfile.Options{})
+			if err != nil {
+				return &harness.Violation{Clause: "open-after-release", Item: -1, Msg: fmt.Sprintf("after a failed Open (%s call #%d failing) the next Open failed: %v", k, ord, err)}
+			}
+			f.Close()
+		}
+	}
+	return nil
 }
